@@ -26,6 +26,11 @@ FINISH_RE = r"^babylon::DepositBox<.*>::finish_released$"
 RESUME_RE = r"^babylon::coroutine::BasicPromise::resume$"
 
 
+DEPENDS = {
+    "C14": "a suspended awaiter is parked in the DepositBox; its id decides who resumes it",
+    "C08": "a coroutine awaiting a Future registers through on_finish",
+}
+
 def units(tier):
     return [driver("coroutine.cc"), lib("coroutine/futex.cpp")]
 
